@@ -139,6 +139,8 @@ def c12(tier, seed):
         out.append({'line': './pargs ' + txt, 'files': {'pargs': PARGS}, 'expect_stdout': _argv(exp), 'area': 'expand_brace'})
         out.append({'line': './pargs L %s R' % txt, 'files': {'pargs': PARGS}, 'expect_stdout': _argv(['L'] + exp + ['R']), 'area': 'expand_brace:order'})
         out.append({'line': "./pargs '%s' \"%s\"" % (txt, txt), 'files': {'pargs': PARGS}, 'expect_stdout': _argv([txt, txt]), 'area': 'expand_brace:quoted'})
+    for txt, exp in (('{a,b}}', ['a}', 'b}']), ('}{a,b}', ['}a', '}b']), ('x}{a,b}y', ['x}ay', 'x}by']), ('{a,b}{', ['a{', 'b{'])):
+        out.append({'line': './pargs ' + txt, 'files': {'pargs': PARGS}, 'expect_stdout': _argv(exp), 'area': 'expand_brace:group-next-to-unbalanced-brace'})
     for neg in ('{a,b', 'a,b}', '{a}', '{}', 'a{b'):
         out.append({'line': './pargs ' + neg, 'files': {'pargs': PARGS}, 'expect_stdout': _argv([neg]), 'area': 'expand_brace:unbalanced'})
     vals = [0, 1, -1, 3, -3, 9, 10, 11]
@@ -211,6 +213,11 @@ def c17(tier, seed):
         {'line': "alias n=\"./pargs 'a b'\"; n", 'files': P, 'expect_stdout': _argv(['a b']), 'area': 'alias:inner-quotes'},
         {'line': "alias n='./pargs a | cat'; n", 'files': P, 'expect_stdout': _argv(['a']), 'area': 'alias:pipe-in-value'},
         {'line': "alias my-n.1_x='./pargs ok'; my-n.1_x", 'files': P, 'expect_stdout': _argv(['ok']), 'area': 'alias:name-charset'},
+        {'line': "alias g-s='./pargs \"x y\"'; g-s", 'files': P, 'expect_stdout': _argv(['x y']), 'area': 'alias:name-charset:inner-quotes'},
+        {'line': "alias g.s=\"./pargs 'x y'\"; g.s", 'files': P, 'expect_stdout': _argv(['x y']), 'area': 'alias:name-charset:inner-quotes'},
+        {'line': "alias g-s='\"./pargs\" x'; g-s", 'files': P, 'expect_stdout': _argv(['x']), 'area': 'alias:name-charset:inner-quotes'},
+        {'line': "alias g_s='\"./pargs\" x'; g_s", 'files': P, 'expect_stdout': _argv(['x']), 'area': 'alias:inner-quotes'},
+        {'line': "alias g-s='./pargs -o \"x y\" end'; g-s", 'files': P, 'expect_stdout': _argv(['-o', 'x y', 'end']), 'area': 'alias:name-charset:inner-quotes'},
     ]
     # listing recreates the definitions when fed back
     for name, val, exp in (('n', './pargs -x', ['-x']), ('n', './pargs "a b"', ['a b']), ('n', "./pargs 'a b'", ['a b']), ('n', './pargs a | cat', ['a']),
@@ -296,6 +303,7 @@ def c04(tier, seed):
         {'line': './oe 2> f 1>&2; echo --; cat f', 'files': F, 'expect_stdout': '--\nO\nE\n', 'area': 'redirect:dup'},
         {'line': './oe > o 2> e; echo --; cat o e', 'files': F, 'expect_stdout': '--\nO\nE\n', 'area': 'redirect:both'},
         {'line': 'echo in > f; cat < f', 'files': F, 'expect_stdout': 'in\n', 'area': 'redirect:stdin'},
+        {'line': 'echo in > f; ./oe < f > o 2> e; echo --; cat o e', 'files': F, 'expect_stdout': '--\nO\nE\n', 'area': 'redirect:three'},
         {'line': 'echo in > f; cat <f', 'files': F, 'expect_stdout': 'in\n', 'area': 'redirect:stdin:no-space'},
         {'line': 'cat <<< word', 'files': F, 'expect_stdout': 'word\n', 'area': 'redirect:here-string'},
         {'line': 'cat <<<word', 'files': F, 'expect_stdout': 'word\n', 'area': 'redirect:here-string:no-space'},
@@ -315,6 +323,19 @@ def c04(tier, seed):
         {'line': 'X=$(sh -c "echo E >&2" 2>&1); echo "[$X]"', 'files': F, 'expect_stdout': '[E]\n', 'area': 'redirect:captured-dup'},
         {'line': 'X=$(sh -c "echo O" 1>&2 2>/dev/null); echo "[$X]"', 'files': F, 'expect_stdout': '[]\n', 'area': 'redirect:captured-dup'},
     ]
+    # two redirections on one command, both orders, every spacing, truncate and append
+    for first_err in (True, False):
+        for sp1 in (' ', ''):
+            for sp2 in (' ', ''):
+                for app in (False, True):
+                    o_ = ('>>' if app else '>') + sp1 + 'o'
+                    e_ = ('2>>' if app else '2>') + sp2 + 'e'
+                    red = (e_ + ' ' + o_) if first_err else (o_ + ' ' + e_)
+                    pre = 'echo old > o; echo old > e; ' if app else ''
+                    exp = '--\n' + ('old\nO\nold\nE\n' if app else 'O\nE\n')
+                    out.append({'line': pre + './oe ' + red + '; echo --; cat o e', 'files': F, 'expect_stdout': exp, 'area': 'redirect:two-targets'})
+                    out.append({'line': pre + './oe ' + red + ' | cat; echo --; cat o e', 'files': F, 'expect_stdout': exp, 'area': 'redirect:two-targets:in-pipeline'})
+    out.append({'line': 'alias nosuch-zz zq=1 2> e > o; echo --; cat o; cat e', 'files': F, 'expect_stdout_prefix': '--\n', 'expect_stdout_contains': 'alias', 'area': 'redirect:builtin-two-targets'})
     return out
 
 
@@ -336,6 +357,9 @@ def c09(tier, seed):
         {'line': 'read a b c <<< "1 2 3 4"; ./pargs "$a" "$b" "$c"', 'files': F, 'expect_stdout': _argv(['1', '2', '3 4']), 'area': 'read'},
         {'line': 'read a b <<< "1"; ./pargs "[$a]" "[$b]"', 'files': F, 'expect_stdout': _argv(['[1]', '[]']), 'area': 'read'},
         {'line': 'read a <<< "x y z"; ./pargs "$a"', 'files': F, 'expect_stdout': _argv(['x y z']), 'area': 'read'},
+        {'line': 'b=old; c=old; read a b c <<< "1"; ./pargs "[$a]" "[$b]" "[$c]"', 'files': F, 'expect_stdout': _argv(['[1]', '[]', '[]']), 'area': 'read:fewer-fields-than-names'},
+        {'line': 'read a b <<< "1 2"; ./pargs "$a" "$b"', 'files': F, 'expect_stdout': _argv(['1', '2']), 'area': 'read'},
+        {'line': 'read a b c d <<< "1 2 3 4"; ./pargs "$a$b$c$d"', 'files': F, 'expect_stdout': _argv(['1234']), 'area': 'read'},
         {'line': 'mkdir -p d1/d2; cd d1/d2; basename $PWD; pwd | xargs basename; sh -c "basename \\$PWD"', 'files': F, 'expect_stdout': 'd2\nd2\nd2\n', 'area': 'cd:relative'},
         {'line': 'mkdir -p d1/d2; cd d1/d2; cd ..; basename $PWD; cd ..; cd d1; echo x > rel; cat d2/../rel', 'files': F, 'expect_stdout': 'd1\nx\n', 'area': 'cd:dotdot'},
         {'line': 'mkdir d1; cd d1; cd; test "$PWD" = "$HOME" && echo home', 'files': F, 'expect_stdout': 'home\n', 'area': 'cd:no-argument'},
@@ -370,6 +394,10 @@ def c15(tier, seed):
         {'script': 'source lib.sh\n$HOME/pargs "$V"\nlf x\nal\nbasename $PWD\n',
          'files': dict(F, **{'lib.sh': 'V=fromlib\nfunction lf() {\n    echo "lf:$1"\n}\nalias al="echo aliased"\nmkdir -p sub\ncd sub\n'}),
          'expect_stdout': '[fromlib]\nlf:x\naliased\nsub\n', 'area': 'source:persists'},
+        {'script': 'for x in a b\n    ./st $x 3\n    break\ndone\n', 'files': F, 'expect_stdout': 'a\n', 'expect_rc': 3, 'area': 'script:status:loop-with-break'},
+        {'script': './st z 0\nfor x in a b\n    ./st $x 4\ndone\n', 'files': F, 'expect_stdout': 'z\na\nb\n', 'expect_rc': 4, 'area': 'script:status:loop'},
+        {'script': 'function g {\n    ./st g 2\n}\nfunction h() {\n    g\n}\nh\necho "st=$?"\n', 'files': F, 'expect_stdout': 'g\nst=2\n', 'area': 'function:nested-status'},
+        {'script': 'function a-b_c() {\n    echo "$0:$1"\n}\na-b_c x\n', 'files': F, 'expect_stdout': 'a-b_c:x\n', 'area': 'function:name-charset'},
         {'script': 'source lib.sh\necho "st=$?"\n', 'files': dict(F, **{'lib.sh': './st a 3\n'}), 'expect_stdout': 'a\nst=3\n', 'area': 'source:status'},
         {'script': 'source l1.sh\necho "$V3"\n', 'files': dict(F, **{'l1.sh': 'source l2.sh\n', 'l2.sh': 'source l3.sh\n', 'l3.sh': 'V3=deep\n'}), 'expect_stdout': 'deep\n', 'area': 'source:chain'},
     ]
